@@ -90,6 +90,14 @@ add("C20", "exploration", E1 + " (all types x cell alphabet x option sets on the
     "or the applied template; CSV files over 4 delimiters x header shapes read back with normalised names and the same text.",
     "text form = str(value); non-default option sets are applied to cell/sequence cases and a quarter of the value cases.", "DESIGN.md C20")
 
+add("C17", "model_checking", E2 + " over writer life cycles (15 writer configurations) plus exhaustive split arithmetic and rotation sequences under a scripted clock",
+    "All histories up to depth 4 (5 thorough) over {write r1, write r2, flush, close, with-exit, with-exit-on-error, close again, del} on 15 "
+    "writer configurations: at every closed state the matching reader and an independent tool (own codec after gzip/bz2/lz4/zstd, json, "
+    "fastavro, sqlite3, csv) find exactly the records written, empty outputs are valid, a second close or del alters nothing; all N x limit "
+    "x suffix x target x closing split combinations and all timestamp sequences <=5 over 3 buckets x pre-existing file x clock answers keep "
+    "every record exactly once in the right file.",
+    "Writes after close are outside the alphabet; the clock inside flow.record.stream is scripted from the harness.", "DESIGN.md C17")
+
 NOT_BUILT = "check not built yet in this round (design in DESIGN.md section 3); not claimed until it runs"
 
 
